@@ -457,7 +457,18 @@ func (p *path) render(v value) string {
 		if v.IsConcrete() {
 			return fmt.Sprintf("%q", v.Concrete())
 		}
-		return "<symbolic string " + v.Show() + ">"
+		var sb strings.Builder
+		for _, b := range v.b {
+			switch {
+			case b.IsConst():
+				sb.WriteByte(byte(b.val))
+			case b.op == OpVar:
+				sb.WriteString("{" + b.name + "}")
+			default:
+				sb.WriteString("{?}")
+			}
+		}
+		return "<symbolic string " + sb.String() + ">"
 	case *Term:
 		if v.IsConst() {
 			if v.sort == 0 {
